@@ -806,6 +806,60 @@ func ruleCmpShape(c *Ctx) {
 				}
 			})
 		}
+		// the object diff is encoded as getDiff produced it: its result goes to the encoder and nowhere else
+		if gd := b.roleFn("getDiff"); gd != nil {
+			for _, cs := range callsTo(co, func(cc *ssa.CallCommon) bool { return cc.StaticCallee() == gd }) {
+				key := "createObjectMergePatch: the diff goes to the encoder as getDiff produced it"
+				var diff ssa.Value
+				for _, ex := range extractOf(cs.Value(), 0) {
+					diff = ex
+				}
+				bad := ""
+				if diff == nil {
+					bad = "the result of the diff is not used"
+				} else {
+					nEnc := 0
+					var follow func(v ssa.Value, d int)
+					follow = func(v ssa.Value, d int) {
+						if d > 3 {
+							return
+						}
+						for _, r := range *v.Referrers() {
+							switch x := r.(type) {
+							case *ssa.DebugRef:
+							case *ssa.MakeInterface:
+								follow(x, d+1)
+							case *ssa.ChangeType:
+								follow(x, d+1)
+							case ssa.CallInstruction:
+								f := x.Common().StaticCallee()
+								if f != nil && (f.Pkg == b.Codec && b.Codec != nil || (f.Pkg != nil && f.Pkg.Pkg.Path() == "encoding/json")) && strings.HasPrefix(f.Name(), "Marshal") {
+									nEnc++
+									continue
+								}
+								if bi, ok := x.Common().Value.(*ssa.Builtin); ok && bi.Name() == "len" {
+									continue
+								}
+								bad = "the diff is handed to " + calleeLabel(x.Common()) + " at " + b.posOf(x) + " before it is encoded: a post-processing step can drop members the diff found (an added empty object, a null that records a deletion)"
+							case *ssa.MapUpdate:
+								bad = "the diff is modified at " + b.posOf(x) + " after getDiff returned"
+							case *ssa.Return, *ssa.Phi:
+								bad = fmt.Sprintf("the diff flows into %T at %s", x, b.posOf(r))
+							}
+						}
+					}
+					follow(diff, 0)
+					if bad == "" && nEnc != 1 {
+						bad = fmt.Sprintf("the diff reaches the encoder %d times", nEnc)
+					}
+				}
+				v, why := Discharged, "getDiff's result is used once, as the encoder's argument"
+				if bad != "" {
+					v, why = Violated, bad
+				}
+				l.add("R-CMPSHAPE", b.Name, key, b.posOf(cs), v, why, true)
+			}
+		}
 		// getDiff: both walks (changed/added members of b, deleted members of a) precede every successful return
 		if gd := b.roleFn("getDiff"); gd != nil && len(gd.Params) == 2 {
 			key := "getDiff: every successful return has passed both member walks (additions/changes over b, deletions over a)"
